@@ -103,12 +103,39 @@ class WorldC07:
         self.ops = []
         self.op_calls = []
         self.digest0 = dom_digest(self.D)
+        self.expected = None
 
     def key(self):
         return (tuple(s.key() for s in self.state_vals), tuple(self.op_calls))
 
 
 MEMO = {}
+_REF = {}
+
+
+def ref_world(text_key, dt, pt):
+    if text_key not in _REF:
+        from ..refsem import RefDomain, RefProblem
+        S = RefDomain.from_tree(sexp.read(dt))
+        RP = RefProblem.from_tree(sexp.read(pt))
+        _REF[text_key] = (S, RP, S.all_objects(RP.objects))
+    return _REF[text_key]
+
+
+def ref_answer(S, objs, ci, st: RefState, what, flags=None):
+    """what the call returns when made alone, by the reference; None when the reference leaves it undefined"""
+    from ..refsem import applicable, successor, Inconsistent, RefUndefined, RefError
+    name, args = CALLS[ci]
+    act = S.actions[name]
+    try:
+        ok = applicable(S, act, args, st, objs)
+        if what == "is_applicable":
+            return ok
+        if not ok and not (flags or {}):
+            return {"raised": "ValueError"}
+        return successor(S, act, args, st, objs).to_json()
+    except (Inconsistent, RefUndefined, RefError):
+        return None
 
 
 def do_event(w: WorldC07, e):
@@ -118,9 +145,12 @@ def do_event(w: WorldC07, e):
         name, args = CALLS[e[1]]
         st = w.states[e[2]]
         op = operator(w.D, name, list(args), w.P.objects)
+        S, RP, objs = ref_world("main", *md.ALL["cond"])
         if kind == "is_applicable":
             res = guard(op.is_applicable, st)
+            w.expected = ref_answer(S, objs, e[1], w.state_vals[e[2]], "is_applicable")
             return ("is_applicable", e[1], w.state_vals[e[2]].key()), show(res)
+        w.expected = ref_answer(S, objs, e[1], w.state_vals[e[2]], "apply", FLAGS[e[3]])
         res = guard(lambda: op.apply(st, **FLAGS[e[3]]))
         obs = guard(observe_state, res) if not isinstance(res, Raised) else res
         if not isinstance(res, Raised) and not isinstance(obs, Raised) and len(w.states) < MAX_STATES:
@@ -180,6 +210,10 @@ def do_event(w: WorldC07, e):
             ok = op.is_applicable(create_initial_state(VP))
             nxt = observe_state(op.apply(create_initial_state(VP), skip_validation=True)).to_json()
             return [ok, nxt]
+        VS, VRP, vobjs = ref_world("variant", vt, pt)
+        a1 = ref_answer(VS, vobjs, e[1], VRP.state(), "is_applicable")
+        a2 = ref_answer(VS, vobjs, e[1], VRP.state(), "apply", {"skip_validation": True})
+        w.expected = [a1, a2] if a1 is not None and a2 is not None else None
         return ("variant", e[1]), show(guard(q))
     if kind == "combine":
         from pathlib import Path
@@ -191,6 +225,18 @@ def do_event(w: WorldC07, e):
         res = guard(lambda: MultiAgentDomainsConverter(d).locate_domains())
         return ("combine",), show(guard(lambda: (sorted(res.types.keys()), sorted(res.actions.keys()))))
     raise ValueError(e)
+
+
+def _agrees(obs, exp):
+    """observation (show() form) vs reference answer; exceptions compare by being exceptions of the refusal kind"""
+    if isinstance(exp, list):
+        return isinstance(obs, list) and len(obs) == len(exp) and all(_agrees(o, x) for o, x in zip(obs, exp))
+    if isinstance(exp, dict) and "raised" in exp:
+        return isinstance(obs, dict) and obs.get("raised") == exp["raised"]
+    if isinstance(exp, dict) and isinstance(obs, dict) and "atoms" in exp and "atoms" in obs:
+        from ..core import same_state
+        return same_state(RefState.from_json(obs), RefState.from_json(exp), exact=False)
+    return obs == exp
 
 
 def invariant(r, w: WorldC07, hist):
@@ -221,12 +267,19 @@ def build(r, hist, check=True):
     """fresh world, replay hist; memo + invariant checked on the LAST event only (prefixes were checked before)."""
     w = WorldC07()
     for i, e in enumerate(hist):
+        w.expected = None
         key, obs = do_event(w, e)
         if key is None:
             return None
         last = i == len(hist) - 1
         if last and check:
             r.count("transitions")
+            exp = getattr(w, "expected", None)
+            w.expected = None
+            if exp is not None and not _agrees(obs, exp):
+                r.fail("result-vs-alone", f"history {hist}: event {e} returned {str(obs)[:400]}; made alone (reference) the call "
+                       f"gives {str(exp)[:400]}", exp, obs, tags=[e[0]])
+                return None
             if key in MEMO and MEMO[key] != obs:
                 r.fail("result-differs", f"history {hist}: event {e} returned {str(obs)[:500]} but the same event on equal "
                        f"inputs returned {str(MEMO[key])[:500]} before", MEMO[key], obs, tags=[e[0]])
